@@ -16,7 +16,53 @@ FAMILY = "readline"
 
 # ------------------------------------------------------------------ requests
 def unhex(h):
-    return b"" if h == "-" else bytes.fromhex(h)
+    """A chunk: `+`-joined parts, each plain hex (`-` = empty) or a run `HH*N` (N copies of the byte HH)."""
+    out = b""
+    for part in h.split("+"):
+        if "*" in part:
+            b, n = part.split("*")
+            out += bytes.fromhex(b) * int(n)
+        elif part != "-":
+            out += bytes.fromhex(part)
+    return out
+
+
+LONG_LINE = 256 * 1024
+
+
+def fnv64(b):
+    h = 0xcbf29ce484222325
+    for x in b:
+        h = ((h ^ x) * 0x100000001b3) & 0xFFFFFFFFFFFFFFFF
+    return h
+
+
+def show_line(x):
+    if len(x) > LONG_LINE:
+        return "L%d:%016x" % (len(x), fnv64(x))
+    return x.hex() if x else "-"
+
+
+def rle(x):
+    """Hex of a chunk, with runs of >= 64 equal bytes written `HH*N` (requests with lines of several MiB)."""
+    if len(x) < 4096:
+        return x.hex() if x else "-"
+    parts, i, lit = [], 0, bytearray()
+    while i < len(x):
+        j = i
+        while j < len(x) and x[j] == x[i]:
+            j += 1
+        if j - i >= 64:
+            if lit:
+                parts.append(lit.hex())
+                lit = bytearray()
+            parts.append("%02x*%d" % (x[i], j - i))
+        else:
+            lit += x[i:j]
+        i = j
+    if lit:
+        parts.append(lit.hex())
+    return "+".join(parts)
 
 
 def parse(req):
@@ -31,7 +77,7 @@ def parse(req):
 
 
 def mk(chunks, calls, delay=0):
-    c = "|".join(x.hex() if x else "-" for x in chunks) or "-"
+    c = "|".join(rle(x) for x in chunks) or "-"
     return f"chunks {c} calls={calls}" + (f" delay={delay}" if delay else "")
 
 
@@ -64,7 +110,7 @@ def py_oracle(req):
         except UnicodeDecodeError:
             return "0"
 
-    return "lines=" + ",".join(x.hex() if x else "-" for x in out) + " utf8=" + "".join(ok(x) for x in out)
+    return "lines=" + ",".join(show_line(x) for x in out) + " utf8=" + "".join(ok(x) for x in out)
 
 
 def initial_cap():
